@@ -405,6 +405,7 @@ func (r *Report) Finish() int {
 	// the retry at thorough limits in main.go covers class q; class c obligations get it too
 	// obligations in the lock that no longer exist (renamed away / contract lost)
 	missing := 0
+	missingBy := map[string][]string{}
 	if r.Prop != "" && len(lock) > 0 && !r.UpdateLock && r.FuncFilter == "" {
 		have := map[string]bool{}
 		for _, v := range r.Verdicts {
@@ -419,11 +420,63 @@ func (r *Report) Finish() int {
 				continue
 			}
 			if !have[k] {
+				// renamed (inherited by a new obligation) or re-numbered within its family?
+				r.inherited(lock)
+				if r.matchedOld[name] {
+					continue
+				}
+				if f := familyOf(name); f != "" {
+					famHave := false
+					for hk := range have {
+						if familyOf(strings.TrimPrefix(hk, r.Tags+"\t")) == f {
+							famHave = true
+							break
+						}
+					}
+					if famHave {
+						continue
+					}
+				}
+				if cls == "t" && r.Tier != "thorough" {
+					continue
+				}
 				missing++
+				fn := name
+				if i := strings.Index(name, "#"); i >= 0 {
+					fn = name[:i]
+				}
+				missingBy[fn] = append(missingBy[fn], name)
 				if missing <= 10 {
 					fmt.Printf("  MISSING   %s (in obligations.lock, not generated by this run)\n", name)
 				}
 			}
+		}
+		// a claimed obligation that is no longer generated is not proved any more: the function
+		// cannot be translated (unsupported construct), or the clause no longer type-checks
+		var fns []string
+		for fn := range missingBy {
+			fns = append(fns, fn)
+		}
+		sort.Strings(fns)
+		for _, fn := range fns {
+			why := "the contract clause or the statement it names no longer exists"
+			for _, fr := range r.Results {
+				if fr.Name == fn && fr.Err != "" {
+					why = "the function can no longer be translated: " + fr.Err
+				}
+			}
+			for _, st := range r.L.Stale {
+				if strings.Contains(st, fn) {
+					why = "stale contract: " + truncate(st, 200)
+					break
+				}
+			}
+			violations++
+			dir := filepath.Join(r.ReplayDir, r.Prop)
+			os.MkdirAll(dir, 0o755)
+			path := filepath.Join(dir, fmt.Sprintf("missing_%x.txt", hashStr(fn)))
+			os.WriteFile(path, []byte(fmt.Sprintf("property: %s\nfunction: %s\n%d obligations that are claimed as discharged in obligations.lock are no longer generated (%s):\n  %s\n", r.Prop, fn, len(missingBy[fn]), why, strings.Join(missingBy[fn], "\n  "))), 0o644)
+			vioLines = append(vioLines, fmt.Sprintf("VIOLATION property=%s replay=%s obligation=%s#claimed-obligations-not-generated(%d) no-failing-input-found", r.Prop, path, strings.ReplaceAll(fn, " ", "_"), len(missingBy[fn])))
 		}
 	}
 
@@ -691,6 +744,7 @@ func (r *Report) inherited(lock map[string]string) map[string]string {
 		usedOld[p.old], usedNew[p.nw] = true, true
 		r.inheritedCls[p.nw] = p.cls
 	}
+	r.matchedOld = usedOld
 	return r.inheritedCls
 }
 
